@@ -485,9 +485,14 @@ where
         // failed with "Too many open files" once there were more runs than descriptors.)
         let fan_in = self.config.merge_ways.max(2);
         let mut intermediate_runs = 0usize;
+        // A run that cannot be read back in full (cut short, damaged) must fail the sort:
+        // skipping its unreadable elements would return a sorted but incomplete result.  The
+        // first read error ends that run and is reported once the merge that met it is over.
+        let read_error: std::rc::Rc<std::cell::RefCell<Option<ZiporaError>>> =
+            std::rc::Rc::new(std::cell::RefCell::new(None));
         while self.temp_files.len() > fan_in {
             let group: Vec<TempRun> = self.temp_files.drain(..fan_in).collect();
-            let mut tree = self.loser_tree_over(&group)?;
+            let mut tree = self.loser_tree_over(&group, &read_error)?;
             tree.initialize()?;
 
             let path = self.config.temp_dir.join(format!("{}_m{}.tmp", self.instance_id, intermediate_runs));
@@ -508,18 +513,28 @@ where
             drop(tree);
             // `group` goes out of scope here: its run files are deleted
             self.temp_files.push(TempRun::new(path, items));
+            if let Some(e) = read_error.borrow_mut().take() {
+                return Err(e);
+            }
         }
 
         // Final merge of at most `merge_ways` runs
-        let mut tournament_tree = self.loser_tree_over(&self.temp_files)?;
+        let mut tournament_tree = self.loser_tree_over(&self.temp_files, &read_error)?;
         let result = tournament_tree.merge_to_vec()?;
+        if let Some(e) = read_error.borrow_mut().take() {
+            return Err(e);
+        }
         self.stats.merge_passes = intermediate_runs + 1;
 
         Ok(result)
     }
 
     /// A loser tree over the given runs (every run file is opened)
-    fn loser_tree_over(&self, runs: &[TempRun]) -> Result<EnhancedLoserTree<T, F>> {
+    fn loser_tree_over(
+        &self,
+        runs: &[TempRun],
+        read_error: &std::rc::Rc<std::cell::RefCell<Option<ZiporaError>>>,
+    ) -> Result<EnhancedLoserTree<T, F>> {
         let tree_config = LoserTreeConfig {
             initial_capacity: runs.len(),
             use_secure_memory: self.config.use_secure_memory,
@@ -533,8 +548,14 @@ where
         let mut tournament_tree = EnhancedLoserTree::with_comparator(tree_config, self.comparator.clone());
 
         for run in runs {
-            let iter = run.iter::<T>()?
-                .filter_map(|result| result.ok()); // Skip errors instead of panicking
+            let slot = std::rc::Rc::clone(read_error);
+            let iter = run.iter::<T>()?.map_while(move |result| match result {
+                Ok(value) => Some(value),
+                Err(e) => {
+                    slot.borrow_mut().get_or_insert(e);
+                    None
+                }
+            });
             tournament_tree.add_way(iter)?;
         }
 
